@@ -337,7 +337,8 @@ pub fn wild_relations(rng: &mut Rng, c: &mut CmdSpec) {
             }
         }
         if rng.chance(1, 6) {
-            a.overrides = pick_ids(rng, &arg_ids, "", 2);
+            // (a group id is accepted as an override target too)
+            a.overrides = if rng.chance(1, 4) { pick_ids(rng, &ids, "", 2) } else { pick_ids(rng, &arg_ids, "", 2) };
         }
         if rng.chance(1, 10) {
             a.required_unless_any = pick_ids(rng, &ids, &me, 2);
